@@ -367,6 +367,10 @@ def family_xz(ctx, j, quick, rnd, pool, cap=None, nrand=None):
     for i in range(nrand):
         scns.append(random_xz_scn(f"xz-rand-{i}", rnd, quick))
         meta.append(("random", None, None))
+    for i, d in enumerate([5000, 12345, 70000] if quick else [4097, 5000, 6145, 12345, 70000, 100000, 1500000]):
+        scns.append({"id": f"xz-far-{d}", "fam": "xz_write", "seed": d, "opt": {"preset": rnd.choice([0, 6]), "dict": d, "check": "crc32", "filters": []},
+                     "period": d - 3, "calls": [{"op": "write", "n": 3 * d}, {"op": "finish"}], "reads": [4096]})
+        meta.append(("directed", None, None))
     res = run_scenarios(scns)
     log(f"[impl] xz_write: {len(scns)} runs of the real XZWriter/XZReader + liblzma in {time.time()-t0:.1f}s")
     ndiv = 0
@@ -392,7 +396,8 @@ def family_xz(ctx, j, quick, rnd, pool, cap=None, nrand=None):
 
 
 def random_xz_scn(sid, rnd, quick):
-    dict_size = rnd.choice([4096, 4096, 8192, 65536, 1 << 20])
+    # dictionary sizes that are and are not exactly representable in the LZMA2 dictionary-size property of the block header
+    dict_size = rnd.choice([4096, 4096, 8192, 65536, 1 << 20, 5000, 12345, 70000, 100000])
     chain = rnd.choice(CHAINS[rnd.choice([12, 12, 16, 20])])
     total = rnd.choice([0, 1, 5, 100, 4095, 4096, 4097, 10000, 30000, 70000] + ([] if quick else [300000, 1 << 20]))
     calls = []
@@ -411,8 +416,12 @@ def random_xz_scn(sid, rnd, quick):
         opt["limit"] = rnd.choice([1, 4096, 5000, 8192, 20000, 65536])
     # D1 (dict < 64 KiB + incompressible data after a window move) belongs to another group: keep small dictionaries on compressible data
     cls = rnd.choice(["text", "seq", "periodic", "lowent", "zeros"] + (["random", "mixed", "repeat_far"] if dict_size >= 65536 else []))
-    return {"id": sid, "fam": "xz_write", "seed": rnd.getrandbits(32), "opt": opt, "class": cls, "calls": calls,
-            "reads": rnd.choice([[4096], [1], [7, 4096, 3], [65536], [1000]])}
+    s = {"id": sid, "fam": "xz_write", "seed": rnd.getrandbits(32), "opt": opt, "class": cls, "calls": calls,
+         "reads": rnd.choice([[4096], [1], [7, 4096, 3], [65536], [1000]])}
+    if total > dict_size and not chain and rnd.random() < 0.6:
+        # matches at a distance just below the dictionary size: the declared dictionary must cover the one the encoder used
+        s["period"] = dict_size - rnd.randint(1, 16)
+    return s
 
 
 TRACE_INV = {"C02": ["TWellFormed", "TRoundTrip", "TContent"], "C03": ["TWellFormed", "TRef"], "C16": ["TConsumed"],
@@ -838,8 +847,10 @@ def dict_byte(ctx, j, quick, pool):
     if uncovered:
         # implementation witness: a member written with such a dictionary and data whose matches lie between the declared
         # and the used dictionary size (take the small size with the widest gap)
-        small = [x for x in uncovered if x["d"] <= (1 << 20)] or uncovered
-        w = max(small, key=lambda x: (x["d"] - x["dec"]) / x["d"])
+        # (the smallest such size keeps the witness cheap: the encoder touches its whole window)
+        cands = [x for x in uncovered if x["d"] - x["dec"] >= 2 and x["dec"] > 0] or uncovered
+        small = [x for x in cands if x["d"] <= (1 << 20)]
+        w = max(small, key=lambda x: (x["d"] - x["dec"]) / x["d"]) if small else min(cands, key=lambda x: x["d"])
         d0 = w["d"]
         s = {"id": f"dictbyte-{d0}", "fam": "lz_write", "seed": 7, "opt": {"preset": 0, "dict": d0}, "period": (d0 + w["dec"]) // 2 + 1,
              "calls": [{"op": "write", "n": 3 * d0}, {"op": "finish"}], "reads": [4096]}
